@@ -41,14 +41,30 @@ def descr(pid, prefix):
     return "see witness"
 
 
-def main(dirs):
+def records(srcs):
+    for d in srcs:
+        if os.path.isfile(d):  # a VERIF_DUMP_KEYS file: one JSON object per violation call, known or not
+            for line in open(d):
+                if line.strip():
+                    yield json.loads(line)
+        else:
+            for f in sorted(glob.glob(os.path.join(d, "*", "*.json"))):
+                yield json.load(open(f))
+
+
+def main(args):
+    merge = "--merge" in args  # keep the generated entries already present and add the new call sites to them
+    dirs = [a for a in args if a != "--merge"]
     kf_path = os.path.join(VERIF, "known_findings.json")
     kf = json.load(open(kf_path))
     hand = [k for k in kf["findings"] if not k.get("generated")]
     groups = collections.OrderedDict()
-    for d in dirs:
-        for f in sorted(glob.glob(os.path.join(d, "*", "*.json"))):
-            rp = json.load(open(f))
+    if merge:
+        for k in kf["findings"]:
+            if k.get("generated"):
+                groups[(k["property"], k["prefix"])] = {"sites": list(k["sites"]), "what": k["witness"]}
+    if True:
+        for rp in records(dirs):
             pid, key = rp["property"], rp["key"]
             if key.startswith("tie:"):
                 print("NOT folded (broken tie, fix the machinery):", pid, key)
@@ -72,7 +88,7 @@ def main(dirs):
         rx = px + ":(" + "|".join(re.escape(s) for s in sites) + ")"
         for s in sites:
             assert re.fullmatch(rx, prefix + ":" + s if not s.startswith("@") else prefix + ":" + s), (prefix, s)
-        gen.append({"property": pid, "key": rx, "generated": True, "n_sites": len(sites),
+        gen.append({"property": pid, "key": rx, "generated": True, "n_sites": len(sites), "prefix": prefix, "sites": sites, "witness": g["what"][:400],
                     "what": "%s [%d reviewed call site(s) / input(s): %s%s] - witness %s" % (descr(pid, prefix), len(sites), ", ".join(s[:60] for s in sites[:4]), ", ..." if len(sites) > 4 else "", g["what"][:260])})
     kf["findings"] = hand + gen
     with open(kf_path, "w") as f:
